@@ -116,11 +116,15 @@ def run_mount(ctx, table, root, path, apps=None):
     apps = apps or build_mount_apps(table)
     hit = apps["hit"]
     nt = False
-    for iface in ("wsgi", "asgi"):
+    raw = isinstance(path, bytes)  # path bytes that are not UTF-8: only WSGI can carry them
+    pb = path if raw else path.encode("utf-8")
+    if raw:
+        path = {"latin-1 view of non-UTF-8 path bytes": pb.decode("latin-1")}
+    for iface in (("wsgi",) if raw else ("wsgi", "asgi")):
         hit.clear()
         app = apps[iface]
         if iface == "wsgi":
-            env = drivers.to_environ(drivers.Req(path=path.encode("utf-8"), root=root.encode("utf-8")))
+            env = drivers.to_environ(drivers.Req(path=pb, root=root.encode("utf-8")))
             root_seen, path_seen = drivers.wsgi_text(env["SCRIPT_NAME"]), drivers.wsgi_text(env["PATH_INFO"])
             before = snap(env, ("SCRIPT_NAME", "PATH_INFO"))
             res = drivers.run_wsgi(app, env)
@@ -255,6 +259,13 @@ def run(ctx):
             root = rng.choice(roots + ([first[0]] if first else []))  # also a root path equal to one of the table's own prefixes
             nt = run_mount(ctx, table, root, path, apps)
             ctx.case((repr(table), root, path) if (nt or ntriv) else None)
+        if all(ord(c) < 128 for c in repr(table).replace("\\x", "~")) and "é" not in repr(table):
+            # non-UTF-8 bytes in the part of the path behind the (ASCII) prefixes: selection works on the prefix alone
+            for path in rng.sample(paths, 6):
+                rawp = path.encode("utf-8") + rng.choice([b"/\xff.bin", b"\xe9", b"/\xe9/x", b"/caf\xe9"])
+                run_mount(ctx, table, rng.choice(["", "/root"]), rawp, apps)
+                ctx.mon("non-utf8-path")
+                ctx.case((repr(table), "raw", rawp))
         if t < 2:
             ctx.sample("nested-mount", {"table": table, "root": root, "path": path, "model": model_walk(table, root, path)})
     ctx.extra["exhaustive_path_list"] = len(PATHS)
@@ -276,7 +287,10 @@ def _detuple(t):
 
 def replay(ctx, case):
     if "table" in case:
-        run_mount(ctx, _detuple(case["table"]), case["root"], case["path"])
+        path = case["path"]
+        if isinstance(path, dict):
+            path = list(path.values())[0].encode("latin-1")
+        run_mount(ctx, _detuple(case["table"]), case["root"], path)
     else:
         run_hosts(ctx, case["patterns"], case["host"])
     ctx.case(1)
